@@ -289,6 +289,8 @@ def title_text(title):
 def render_ref(ref, titles):
     d = '$' if ref['abs'] else ''
     pre = '' if ref['s'] is None else title_text(titles[ref['s']]) + '!'
+    if ref.get('bare'):                                          # a one-cell range written as a cell (SUMIF only)
+        return f"{pre}{d}{col_letters(ref['c0'])}{d}{ref['r0']}"
     return f"{pre}{d}{col_letters(ref['c0'])}{d}{ref['r0']}:{d}{col_letters(ref['c1'])}{d}{ref['r1']}"
 
 
@@ -852,10 +854,11 @@ def _probe_specs(crit, row):
             ('', {'func': 'SUMIFS', 'target': b, 'pairs': [[a, crit]], 'home': 0}),
             ('', {'func': 'COUNTIFS', 'target': None, 'pairs': [[a, crit]], 'home': 0}),
             ('#2', {'func': 'COUNTIFS', 'target': None, 'pairs': [[b, always], [a, crit]], 'home': 0, 'probe': 1}),
-            ('', {'func': 'AVERAGEIFS', 'target': b, 'pairs': [[a, crit]], 'home': 0})]
+            ('', {'func': 'AVERAGEIFS', 'target': b, 'pairs': [[a, crit]], 'home': 0}),
+            ('#cell', {'func': 'SUMIF', 'target': dict(b, bare=True), 'pairs': [[dict(a, bare=True), crit]], 'home': 0})]
 
 
-PROBE_FUNCS = ['SUMIF', 'SUMIFS', 'COUNTIFS', 'COUNTIFS#2', 'AVERAGEIFS']
+PROBE_FUNCS = ['SUMIF', 'SUMIFS', 'COUNTIFS', 'COUNTIFS#2', 'AVERAGEIFS', 'SUMIF#cell']
 
 
 def _matrix_batches(crits, values, variants, per_batch=420):
@@ -910,16 +913,17 @@ def operator_cell_criteria():
 def check_criteria(name, crits, tier, what):
     t0 = time.time()
     if tier == 'thorough':
-        variants = (0, 1, 2, 3, 4)
-    else:                                          # quick: all five places for every third criterion, else the two translator paths
-        variants = lambda n, crit: (0, 1, 2, 3, 4) if n % 3 == 0 else (0, 1) if n % 3 == 1 else (2, 4)
+        variants = (0, 1, 2, 3, 4, 5)
+    else:                                          # quick: all six places for every third criterion, else the two translator paths
+        variants = lambda n, crit: (0, 1, 2, 3, 4, 5) if n % 3 == 0 else (0, 1) if n % 3 == 1 else (2, 4)
     batches = _matrix_batches(crits, MATRIX_VALUES, variants)
     return _collect(
         name,
         f'{len(crits)} criteria ({what}) x {len(MATRIX_VALUES)} cell values (ints, floats, 0, negatives, TRUE/FALSE, texts in both '
         f'cases, Cyrillic, > 50 characters, numeric and date-like texts, dates / date-times up to 2051, blank) x '
-        f'{"all 5 places" if tier == "thorough" else "5 places for every third criterion, 2 of the 5 for the others"} '
-        f'(SUMIF, SUMIFS, COUNTIFS first and second pair, AVERAGEIFS), each on a one-cell range with a numeric target cell',
+        f'{"all 6 places" if tier == "thorough" else "6 places for every third criterion, 2 of the 6 for the others"} '
+        f'(SUMIF with A5:A5 and with A5, SUMIFS, COUNTIFS first and second pair, AVERAGEIFS), each on a one-cell range with a '
+        f'numeric target cell',
         'one evaluation = one formula value compared with the fold of every admissible selection of the single cell; '
         'combinations the statement does not decide admit both outcomes but never an exception; a criterion whose operand '
         'cell is blank has no clause and is skipped', tier == 'thorough', batches, t0,
